@@ -70,6 +70,14 @@ class UGrammar(Grammar, ABC, Generic[U, V, W]):
     def __hash__(self) -> int:
         return hash((tuple(self.starts), str(self.rules)))
 
+    def __eq__(self, o: object) -> bool:
+        return (
+            isinstance(o, UGrammar)
+            and self.type_request == o.type_request
+            and self.starts == o.starts
+            and self.rules == o.rules
+        )
+
     def __rule_to_str__(self, P: DerivableProgram, out: V) -> str:
         return "{}: {}".format(P, out)
 
